@@ -74,7 +74,7 @@ class Eval:
             if term is None and default_param:
                 env[p["id"]] = ("param", p["name"])
             else:
-                env[p["id"]] = term if not path else ("proj", term, path)
+                env[p["id"]] = term if not path else proj_reduce(term, path)
                 self.bound.setdefault(p["name"], []).append(env[p["id"]])
             if "sub" in p:
                 self.bind_pat(p["sub"], term, env, default_param, path)
@@ -365,7 +365,21 @@ class Eval:
             sc = self.expr(e["scrut"], env, depth)
             arms = []
             envs = []
-            for a in e["arms"]:
+            live = e["arms"]
+            if isinstance(sc, tuple) and sc and sc[0] == "ctor":
+                # the scrutinee is a literal constructor: drop the arms it cannot take, stop at the first it must take
+                live = []
+                for a in e["arms"]:
+                    r = pat_vs_term(a["pat"], sc)
+                    if r is False:
+                        continue
+                    live.append(a)
+                    if r is True and "guard" not in a:
+                        break
+                if len(live) == 1 and pat_vs_term(live[0]["pat"], sc) is True and "guard" not in live[0]:
+                    self.bind_pat(live[0]["pat"], sc, env)
+                    return self.expr(live[0]["body"], env, depth)
+            for a in live:
                 ea = dict(env)
                 self.bind_pat(a["pat"], sc, ea)
                 g = None
@@ -523,6 +537,85 @@ class Eval:
             if len(bs) == 1:
                 return self.function(bs[0], args, depth + 1)
         return ("call", name, tuple(args))
+
+
+def proj_reduce(term, path):
+    """('proj', term, path) with leading steps through literal constructors / tuples resolved"""
+    while path and isinstance(term, tuple) and term:
+        head, f = path[0]
+        if term[0] == "ctor" and (head == term[1]):
+            hit = [v for k, v in term[2] if k == f]
+            if not hit:
+                break
+            term, path = hit[0], path[1:]
+        elif term[0] == "list" and head == "tuple" and f.isdigit() and int(f) < len(term[1]):
+            term, path = term[1][int(f)], path[1:]
+        else:
+            break
+    return term if not path else ("proj", term, path)
+
+
+def pat_vs_term(p, t):
+    """Does HIR pattern p match the term t?  True / False / None (cannot tell)."""
+    k = p.get("p")
+    if k in ("Wild",):
+        return True
+    if k == "Bind":
+        return pat_vs_term(p["sub"], t) if "sub" in p else True
+    if k in ("Ref", "Box", "Deref"):
+        return pat_vs_term(p["pat"], t)
+    if k == "Or":
+        rs = [pat_vs_term(q, t) for q in p["pats"]]
+        if any(r is True for r in rs):
+            return True
+        if all(r is False for r in rs):
+            return False
+        return None
+    if not (isinstance(t, tuple) and t):
+        return None
+    if k == "Lit":
+        if t[0] == "lit":
+            v = p.get("v")
+            if p.get("neg") and isinstance(v, (int, float)):
+                v = -v
+            return v == t[1]
+        return None
+    if k in ("Path", "TupleStruct", "Struct"):
+        r = p.get("res", {})
+        if r.get("r") != "ctor" or t[0] != "ctor":
+            return None
+        head = "%s::%s" % (hq.last(r.get("adt", "?")), r.get("variant")) if r.get("variant") else hq.last(r.get("adt", "?"))
+        if t[1] != head:
+            # different variant of the same enum (or a different type altogether: cannot tell)
+            return False if t[1].split("::")[0] == head.split("::")[0] else None
+        fields = dict(t[2])
+        res = True
+        subs = []
+        if k == "TupleStruct":
+            subs = [(str(i), q) for i, q in enumerate(p["pats"])]
+        elif k == "Struct":
+            subs = [(f["name"], f["pat"]) for f in p["fields"]]
+        for name, q in subs:
+            if name not in fields:
+                if pat_vs_term(q, ("unknown",)) is not True:
+                    res = None
+                continue
+            m = pat_vs_term(q, fields[name])
+            if m is False:
+                return False
+            if m is None:
+                res = None
+        return res
+    if k == "Tuple" and t[0] == "list" and len(t[1]) == len(p["pats"]):
+        res = True
+        for q, x in zip(p["pats"], t[1]):
+            m = pat_vs_term(q, x)
+            if m is False:
+                return False
+            if m is None:
+                res = None
+        return res
+    return None
 
 
 def subst(t, mapping):
